@@ -535,4 +535,411 @@ Section Refine.
     assert (L : forall (l : list (N * bcur)) x, last_opt (l ++ [x]) = Some x) by (intros; apply last_opt_snoc).
     rewrite L. exact Ecur.
   Qed.
+
+  (* ---- relative moves keep the cache coherent: a pair is moved inside its block or reloaded together
+     with its recorded offset (the D2 repair) ---- *)
+  Fixpoint coherent_df (st : list (N * bcur)) : Prop :=   (* deepest first *)
+    match st with [] => True | p :: up => ok_pair (length up) p /\ coherent_df up end.
+
+  Lemma coherent_df_rev lv : forall k, coherent k lv -> forall st, coherent_df st -> length st = k -> coherent_df (rev lv ++ st).
+  Proof.
+    induction lv as [|p rest IH]; intros k Hc st Hst Hl; cbn [rev app]; [exact Hst|].
+    destruct Hc as [Hp Hrest]. rewrite <- app_assoc. cbn [app].
+    apply (IH (S k) Hrest (p :: st)); [cbn [coherent_df]; split; [rewrite Hl; exact Hp|exact Hst] | cbn [length]; lia].
+  Qed.
+
+  Lemma coherent_of_df st : forall lv k, coherent_df st -> length st = k -> coherent k lv -> coherent 0 (rev st ++ lv).
+  Proof.
+    induction st as [|p up IH]; intros lv k Hst Hl Hlv; cbn [rev app].
+    - cbn [length] in Hl. subst k. exact Hlv.
+    - destruct Hst as [Hp Hup]. rewrite <- app_assoc. cbn [app]. cbn [length] in Hl.
+      apply (IH (p :: lv) (length up) Hup eq_refl). cbn [coherent]. split; [exact Hp|]. rewrite Hl. exact Hlv.
+  Qed.
+
+  Lemma bc_move_blk m c c' r : bc_move m c = Done (c', r) -> bc_blk c' = bc_blk c.
+  Proof.
+    assert (Hcur : forall c0 r0 x, (do e <- bc_current c0; Done (c0, e)) = Done (x, r0) -> x = c0).
+    { intros c0 r0 x H. destruct (bc_current c0); cbn [bind] in H; try discriminate. injection H as <- _. reflexivity. }
+    assert (Hfirst : forall c0 c1 r0, bc_first c0 = Done (c1, r0) -> bc_blk c1 = bc_blk c0).
+    { intros c0 c1 r0 H. unfold bc_first in H. apply Hcur in H. subst c1. reflexivity. }
+    assert (Hnext : forall c0 c1 r0, bc_next c0 = Done (c1, r0) -> bc_blk c1 = bc_blk c0).
+    { intros c0 c1 r0 H. unfold bc_next in H. destruct (bc_off c0) as [off|]; [|exact (Hfirst _ _ _ H)].
+      destruct (entry_at (bc_blk c0) off) as [[[[k v] nx]|]| |]; cbn [bind] in H; try discriminate.
+      - apply Hcur in H. subst c1. reflexivity.
+      - injection H as <- _. reflexivity. }
+    assert (Hlast : forall c0 c1 r0, bc_last c0 = Done (c1, r0) -> bc_blk c1 = bc_blk c0).
+    { intros c0 c1 r0 H. unfold bc_last in H.
+      match type of H with bind ?X _ = _ => destruct X as [cur| |]; cbn [bind] in H; try discriminate end.
+      apply Hcur in H. subst c1. reflexivity. }
+    assert (Hle : forall c0 q c1 r0, bc_le c0 q = Done (c1, r0) -> bc_blk c1 = bc_blk c0).
+    { intros c0 q c1 r0 H. unfold bc_le in H.
+      destruct (search_keys _ _ _ _) as [res| |]; cbn [bind] in H; try discriminate.
+      match type of H with bind ?X _ = _ => destruct X as [cur| |]; cbn [bind] in H; try discriminate end.
+      apply Hcur in H. subst c1. reflexivity. }
+    destruct m as [| | | |q]; cbn [bc_move]; intro H.
+    - exact (Hfirst _ _ _ H).
+    - exact (Hlast _ _ _ H).
+    - exact (Hnext _ _ _ H).
+    - unfold bc_prev in H. destruct (bc_off c) as [cur|]; [|exact (Hlast _ _ _ H)].
+      destruct (match search_offsets _ _ _ with inl i => i | inr i => i end =? 0); [injection H as <- _; reflexivity|].
+      destruct (entry_at (bc_blk c) cur) as [[[[ck cv] nx]|]| |]; cbn [bind] in H; try discriminate.
+      + destruct (nthN _ _) as [off0|]; [|discriminate].
+        destruct (scan_while _ _ _ _ _) as [cur'| |]; cbn [bind] in H; try discriminate.
+        apply Hcur in H. subst c'. reflexivity.
+      + injection H as <- _. reflexivity.
+    - unfold bc_ge in H. destruct (bc_le c q) as [[c1 e]| |] eqn:El; cbn [bind] in H; try discriminate.
+      pose proof (Hle _ _ _ _ El) as H1. destruct e as [[k v]|].
+      + destruct (bytes_eqb k q); [injection H as <- _; exact H1|]. rewrite <- H1. exact (Hnext _ _ _ H).
+      + rewrite <- H1. exact (Hfirst _ _ _ H).
+  Qed.
+
+  Lemma rec_coherent m : forall st n st' r n', rec_rev ld m n st = Done (st', r, n') ->
+    coherent_df st -> (forall it, r = Some it -> True) ->
+    (forall k', (k' < length st)%nat -> Forall item_ok (lseq k')) ->
+    coherent_df st' /\ length st' = length st.
+  Proof.
+    induction st as [|[o c] up IH]; intros n st' r n' H Hc _ Hitems; cbn [rec_rev] in H.
+    - injection H as <- _ _. split; [exact I|reflexivity].
+    - destruct Hc as [Hokp Hup].
+      destruct (bc_move m c) as [[c1 e]| |] eqn:Em; cbn [bind] in H; try discriminate.
+      pose proof (bc_move_blk m c c1 e Em) as Hb.
+      destruct e as [kv|].
+      + destruct (bc_current c1) as [e'| |]; cbn [bind] in H; try discriminate. injection H as <- _ _.
+        split; [|reflexivity]. cbn [coherent_df]. split; [|exact Hup].
+        destruct Hokp as [(b & es & ridx & E & Hbb)|Hh]; [left; exists b, es, ridx; cbn [fst snd] in *; rewrite Hb; auto | right; exact Hh].
+      + destruct (rec_rev ld m n up) as [[[up' pe] n1]| |] eqn:Er; cbn [bind] in H; try discriminate.
+        destruct (IH n up' pe n1 Er Hup ltac:(auto) ltac:(intros k' Hk'; apply Hitems; cbn [length]; lia)) as [IHc IHl].
+        destruct pe as [[pk ob]|].
+        * destruct (off_of_val ob) as [j| |] eqn:Eo; cbn [bind] in H; try discriminate.
+          destruct (ld n1 j) as [b| |] eqn:Eld; cbn [bind] in H; try discriminate.
+          destruct (bc_move m (bc_new b)) as [[c3 e3]| |] eqn:Em3; cbn [bind] in H; try discriminate.
+          injection H as <- _ _. split; [|cbn [length]; lia]. cbn [coherent_df]. split; [|exact IHc].
+          (* the reloaded pair: valid when the offset names a stored block, harmless otherwise *)
+          destruct (bstore j) as [[[bj esj] rj]|] eqn:Ej.
+          -- left. exists bj, esj, rj. cbn [fst snd]. split; [exact Ej|].
+             destruct (Hld _ _ _ _ Ej) as (Hlj & _ & _). rewrite (Hlj n1) in Eld. injection Eld as <-.
+             rewrite (bc_move_blk m (bc_new bj) c3 e3 Em3). reflexivity.
+          -- (* not reachable on a well-formed store (item_ok), but coherence does not need it *)
+             right. cbn [fst]. rewrite IHl. intro Hin.
+             destruct (length up) as [|k'] eqn:Elu; cbn [offs] in Hin.
+             ++ destruct Hin as [<-|[]]. rewrite Hroot in Ej. discriminate.
+             ++ apply in_map_iff in Hin. destruct Hin as (it & Eit & Hit).
+                pose proof (Hitems k' ltac:(cbn [length]; lia)) as F. rewrite Forall_forall in F.
+                destruct (F it Hit) as [_ Hx]. rewrite Eit in Hx. congruence.
+        * injection H as <- _ _. split; [|cbn [length]; lia]. cbn [coherent_df]. split; [|exact IHc].
+          rewrite IHl.
+          destruct Hokp as [(b & es & ridx & E & Hbb)|Hh]; [left; exists b, es, ridx; cbn [fst snd] in *; rewrite Hb; auto | right; exact Hh].
+  Qed.
+
+  (* ================= the ReaderCursor ================= *)
+  Variable levels : N.
+  Let D : nat := S (N.to_nat levels).
+  Hypothesis Hitems_all : forall k, (k < D)%nat -> Forall item_ok (lseq k).
+
+  Definition Coh (st : cstate) : Prop :=
+    match cs_inner st with None => True | Some lv => length lv = D /\ coherent 0 lv end.
+  Definition Pos (st : cstate) (i : nat) : Prop :=
+    exists lv dc o, cs_inner st = Some lv /\ length lv = D /\ coherent 0 lv /\ cs_data st = Some dc /\
+                    positioned ((o, dc) :: rev lv) D i.
+
+  Lemma Pos_Coh st i : Pos st i -> Coh st.
+  Proof. intros (lv & dc & o & E & Hl & Hc & _). unfold Coh. rewrite E. auto. Qed.
+
+  (* one more level of the selected path *)
+  Lemma sdesc_S m c k gp :
+    sdesc m k gp (S c) = match nth_error (lseq k) gp with
+                         | None => None
+                         | Some pit => let j := sel m (kids pit) in
+                                       if Nat.ltb j (length (kids pit)) then sdesc m (S k) (gstart (lseq k) gp + j) c else None
+                         end.
+  Proof. reflexivity. Qed.
+
+  Lemma sdesc_snoc m : forall c k gp,
+    sdesc m k gp (S c) =
+    match sdesc m k gp c with
+    | Some g => match nth_error (lseq (k + c)) g with
+                | Some pit => let j := sel m (kids pit) in
+                              if Nat.ltb j (length (kids pit)) then Some (gstart (lseq (k + c)) g + j)%nat else None
+                | None => None
+                end
+    | None => None
+    end.
+  Proof.
+    induction c as [|c IH]; intros k gp.
+    - rewrite sdesc_S. cbn [sdesc]. replace (k + 0)%nat with k by lia. destruct (nth_error (lseq k) gp); [|reflexivity].
+      cbv zeta. destruct (Nat.ltb _ _); reflexivity.
+    - rewrite (sdesc_S m (S c) k gp). rewrite (sdesc_S m c k gp).
+      destruct (nth_error (lseq k) gp) as [pit|]; [|reflexivity]. cbv zeta.
+      destruct (Nat.ltb (sel m (kids pit)) (length (kids pit))); [|reflexivity].
+      rewrite IH. replace (S k + c)%nat with (k + S c)%nat by lia. reflexivity.
+  Qed.
+
+  Lemma sroot_snoc m c : (0 < c)%nat ->
+    sroot m (S c) =
+    match sroot m c with
+    | Some g => match nth_error (lseq (c - 1)) g with
+                | Some pit => let j := sel m (kids pit) in
+                              if Nat.ltb j (length (kids pit)) then Some (gstart (lseq (c - 1)) g + j)%nat else None
+                | None => None
+                end
+    | None => None
+    end.
+  Proof.
+    intro Hc. destruct c as [|c]; [lia|]. cbn [sroot]. cbv zeta.
+    destruct (Nat.ltb (sel m root_items) (length root_items)); [|reflexivity].
+    rewrite sdesc_snoc. cbn [plus]. replace (S c - 1)%nat with c by lia. reflexivity.
+  Qed.
+
+  (* the data-block step shared by first / last / seek *)
+  Lemma data_step m : absmove m -> forall lv' g n,
+    positioned (rev lv') (D - 1) g -> length lv' = D -> coherent 0 lv' ->
+    exists pit, nth_error (lseq (D - 1)) g = Some pit /\
+      last_current lv' = Done (Some pit) /\
+      exists dc, (do r2 <- load_data ld (snd pit) n; let '(c, n') := r2 in do r3 <- bc_move m c; let '(c', e') := r3 in
+                  Done (mk_cs (Some lv') (Some c') n', e'))
+                 = Done (mk_cs (Some lv') (Some dc) (n + 1), nth_error (kids pit) (sel m (kids pit))) /\
+        ((sel m (kids pit) < length (kids pit))%nat ->
+         Pos (mk_cs (Some lv') (Some dc) (n + 1)) (gstart (lseq (D - 1)) g + sel m (kids pit)) /\
+         nth_error (kids pit) (sel m (kids pit)) = nth_error (lseq D) (gstart (lseq (D - 1)) g + sel m (kids pit))).
+  Proof.
+    intros Hm lv' g n Hp Hlen Hcoh.
+    pose proof (positioned_lt _ _ _ Hp) as Hg.
+    destruct (nth_error (lseq (D - 1)) g) as [pit|] eqn:En; [|apply nth_error_None in En; lia].
+    exists pit. split; [reflexivity|].
+    pose proof (positioned_current _ _ _ Hp) as Hcur. rewrite rev_involutive, En in Hcur.
+    split; [exact Hcur|].
+    assert (Hok : item_ok pit).
+    { pose proof (Hitems_all (D - 1)%nat ltac:(unfold D; lia)) as F. rewrite Forall_forall in F. apply F. eapply nth_error_In. exact En. }
+    destruct (bstore (coff pit)) as [[[b es] ridx]|] eqn:E; [|destruct Hok as [_ Hx]; congruence].
+    destruct (Hld _ _ _ _ E) as (Hl & W & Hnee).
+    assert (Hk : kids pit = es) by (unfold kids; rewrite E; reflexivity).
+    exists (mk_bcur b (Some (start es (sel m es)))).
+    unfold load_data. rewrite (off_of_item pit Hok). cbn [bind]. rewrite (Hl n). cbn [bind].
+    rewrite (abs_move m (bc_new b) (coff pit) b es ridx Hm E eq_refl). cbn [bind]. rewrite Hk.
+    split; [reflexivity|]. intro Hj.
+    assert (HD : D = S (D - 1)) by (unfold D; lia).
+    split.
+    - exists lv', (mk_bcur b (Some (start es (sel m es)))), 0. cbn [cs_inner cs_data].
+      split; [reflexivity|]. split; [exact Hlen|]. split; [exact Hcoh|]. split; [reflexivity|].
+      rewrite HD at 1. eapply pos_step; [exact Hp | exact En | exact Hok |]. exists b, es, ridx. auto.
+    - rewrite HD at 1. cbn [lseq]. rewrite (nth_flat _ _ _ _ En) by (rewrite Hk; exact Hj). rewrite Hk. reflexivity.
+  Qed.
+
+  (* the three absolute operations share this shape; [keep] tells whether a failed index walk keeps
+     the data cursor (seek) or clears it (first / last) *)
+  Definition abs_op (m : mv) (keep : bool) (st : cstate) : outcome (cstate * option entry) :=
+    do r <- idx_iter ld root levels m (cs_inner st) (cs_loads st);
+    let '(inner, e, n) := r in
+    match e with
+    | Some (_, ob) =>
+      do r2 <- load_data ld ob n;
+      let '(c, n') := r2 in
+      do r3 <- bc_move m c;
+      let '(c', e') := r3 in
+      Done (mk_cs inner (Some c') n', e')
+    | None => Done (mk_cs inner (if keep then cs_data st else None) n, None)
+    end.
+
+  Lemma c_first_last_abs m st : c_first_last ld root levels m st = abs_op m false st.
+  Proof. reflexivity. Qed.
+  Lemma c_ge_abs q st : c_ge ld root levels q st = abs_op (MGe q) true st.
+  Proof. reflexivity. Qed.
+
+  Theorem abs_op_spec m keep st : absmove m -> Coh st ->
+    exists st' r, abs_op m keep st = Done (st', r) /\
+      cs_loads st <= cs_loads st' <= cs_loads st + N.of_nat (S D) /\
+      match sroot m (S D) with
+      | Some i => Pos st' i /\ r = nth_error (lseq D) i
+      | None => r = None /\ Coh st'
+      end.
+  Proof.
+    intros Hm Hcoh. unfold abs_op, idx_iter. fold D.
+    assert (HD0 : (0 < D)%nat) by (unfold D; lia).
+    rewrite (sroot_snoc m D HD0).
+    destruct (cs_inner st) as [lv|] eqn:Ei.
+    - unfold Coh in Hcoh. rewrite Ei in Hcoh. destruct Hcoh as [Hlen Hc].
+      destruct (iter_root m Hm lv (cs_loads st) Hc ltac:(destruct lv; [cbn [length] in Hlen; lia|discriminate])
+                  ltac:(intros k' Hk'; apply Hitems_all; lia)) as (lv' & n' & ok & Er & Hn' & Hlen' & Hres).
+      rewrite Er. cbn [bind]. rewrite Hlen in *.
+      destruct (sroot m D) as [g|].
+      + destruct Hres as (-> & Hp & Hv).
+        destruct (data_step m Hm lv' g n' Hp ltac:(lia) (all_valid_coherent lv' 0 Hv)) as (pit & En & Hcur & dc & Ed & Hsel).
+        rewrite Hcur. cbn [bind]. destruct pit as [pk ob]. cbn [snd] in Ed. rewrite Ed. rewrite En. cbv zeta.
+        eexists _, _. split; [reflexivity|]. cbn [cs_loads]. split; [lia|].
+        destruct (Nat.ltb_spec (sel m (kids (pk, ob))) (length (kids (pk, ob)))) as [Hj|Hj].
+        * destruct (Hsel Hj) as [A B]. split; [exact A|exact B].
+        * split; [apply nth_error_None; exact Hj|]. unfold Coh. cbn [cs_inner]. split; [lia|apply all_valid_coherent; exact Hv].
+      + destruct Hres as (-> & Hc'). cbn [bind]. eexists _, _. split; [reflexivity|]. cbn [cs_loads]. split; [lia|].
+        split; [reflexivity|]. unfold Coh. cbn [cs_inner]. split; [lia|exact Hc'].
+    - destruct (init_root m Hm D (cs_loads st) HD0 Hitems_all) as (res & n' & Er & Hn' & Hres).
+      unfold depth. fold D. rewrite Er. cbn [bind].
+      destruct (sroot m D) as [g|].
+      + destruct Hres as (lv' & -> & Hlen' & Hp & Hc').
+        destruct (data_step m Hm lv' g n' Hp Hlen' Hc') as (pit & En & Hcur & dc & Ed & Hsel).
+        rewrite Hcur. cbn [bind]. destruct pit as [pk ob]. cbn [snd] in Ed. rewrite Ed. rewrite En. cbv zeta.
+        eexists _, _. split; [reflexivity|]. cbn [cs_loads]. split; [lia|].
+        destruct (Nat.ltb_spec (sel m (kids (pk, ob))) (length (kids (pk, ob)))) as [Hj|Hj].
+        * destruct (Hsel Hj) as [A B]. split; [exact A|exact B].
+        * split; [apply nth_error_None; exact Hj|]. unfold Coh. cbn [cs_inner]. split; [exact Hlen'|exact Hc'].
+      + subst res. cbn [bind]. eexists _, _. split; [reflexivity|]. cbn [cs_loads]. split; [lia|].
+        split; [reflexivity|]. unfold Coh. cbn [cs_inner]. exact I.
+  Qed.
+
+  Lemma positioned_length st d g : positioned st d g -> length st = S d.
+  Proof. induction 1 as [| o c up d gp pit j Hp IH]; cbn [length]; [reflexivity|]. rewrite IH. reflexivity. Qed.
+
+  Lemma positioned_inv o c up d g : positioned ((o, c) :: up) (S d) g ->
+    exists gp pit j, positioned up d gp /\ nth_error (lseq d) gp = Some pit /\ item_ok pit /\
+                     cursor_at c (coff pit) j /\ g = (gstart (lseq d) gp + j)%nat.
+  Proof.
+    intro H. inversion H as [|o' c' up' d' gp pit j Hp Hn Hok Hc]; subst.
+    exists gp, pit, j. split; [exact Hp|]. split; [exact Hn|]. split; [exact Hok|]. split; [exact Hc|reflexivity].
+  Qed.
+
+  Lemma coherent_rev_stack lv stk n r n' m :
+    coherent 0 lv -> rec_rev ld m n (rev lv) = Done (stk, r, n') -> length lv = D ->
+    coherent 0 (rev stk) /\ length stk = D.
+  Proof.
+    intros Hc Hr Hl.
+    assert (Hdf : coherent_df (rev lv)).
+    { pose proof (coherent_df_rev lv 0 Hc [] I eq_refl) as H. rewrite app_nil_r in H. exact H. }
+    destruct (rec_coherent m (rev lv) n stk r n' Hr Hdf ltac:(auto)
+                ltac:(intros k' Hk'; apply Hitems_all; rewrite rev_length in Hk'; lia)) as [A B].
+    rewrite rev_length in B. split; [|lia].
+    pose proof (coherent_of_df stk [] (length stk) A eq_refl I) as H. rewrite app_nil_r in H. exact H.
+  Qed.
+
+  Theorem c_next_spec st i : Pos st i ->
+    exists st' r, c_next_prev ld root levels MNext st = Done (st', r) /\
+      cs_loads st <= cs_loads st' <= cs_loads st + N.of_nat (S D) /\
+      if Nat.ltb (S i) (length (lseq D))
+      then Pos st' (S i) /\ r = nth_error (lseq D) (S i)
+      else r = None /\ Coh st'.
+  Proof.
+    intros (lv & dc & o & Ei & Hlen & Hcoh & Ed & Hp).
+    assert (HD : D = S (D - 1)) by (unfold D; lia).
+    rewrite HD in Hp. apply positioned_inv in Hp. destruct Hp as (gp & pit & j & Hup & Hn & Hok & Hc & Hi).
+    destruct Hc as (b & es & ridx & E & H1 & H2 & H3).
+    assert (Hcat : cursor_at dc (coff pit) j) by (exists b, es, ridx; auto).
+    assert (Hk : kids pit = es) by (unfold kids; rewrite E; reflexivity).
+    destruct (Hld _ _ _ _ E) as (_ & W & _).
+    pose proof (gstart_bound _ _ _ Hn) as Hm. rewrite Hk in Hm.
+    unfold c_next_prev. rewrite Ed. rewrite (move_next_at dc (coff pit) j b es ridx E Hcat). cbn [bind].
+    assert (HlD : lseq D = flat_map kids (lseq (D - 1))) by (rewrite HD at 1; reflexivity).
+    destruct (nth_error es (S j)) as [kv|] eqn:En.
+    - (* inside the data block *)
+      assert (Hs : (S j < length es)%nat) by (apply nth_error_Some; congruence).
+      eexists _, _. split; [reflexivity|]. cbn [cs_loads]. split; [lia|].
+      rewrite HlD. destruct (Nat.ltb_spec (S i) (length (flat_map kids (lseq (D - 1))))); [|lia].
+      split.
+      + exists lv, (mk_bcur b (Some (start es (S j)))), o. cbn [cs_inner cs_data]. rewrite Ei.
+        split; [reflexivity|]. split; [exact Hlen|]. split; [exact Hcoh|]. split; [reflexivity|].
+        rewrite HD at 1. replace (S i) with (gstart (lseq (D - 1)) gp + S j)%nat by lia.
+        eapply pos_step; [exact Hup | exact Hn | exact Hok | apply (cursor_at_next (coff pit) j b es ridx E Hs)].
+      + replace (S i) with (gstart (lseq (D - 1)) gp + S j)%nat by lia.
+        rewrite (nth_flat _ _ _ _ Hn) by (rewrite Hk; lia). rewrite Hk. first [reflexivity | exact En | (symmetry; exact En)].
+    - (* the data block is exhausted: ask the index *)
+      assert (Hlast : S j = length es) by (apply nth_error_None in En; lia).
+      unfold idx_rec. rewrite Ei. cbn [bind].
+      destruct (rec_next_spec (rev lv) (D - 1) gp Hup ltac:(intros k Hk'; apply Hitems_all; lia) (cs_loads st))
+        as (stk & r2 & n2 & Er & Hn2 & Hres).
+      rewrite Er. cbn [bind].
+      destruct (coherent_rev_stack lv stk _ _ _ MNext Hcoh Er Hlen) as [Hcoh' Hlen'].
+      assert (Hg1 : S i = gstart (lseq (D - 1)) (S gp)) by (rewrite (gstart_S _ _ _ Hn), Hk; lia).
+      destruct (Nat.ltb_spec (S gp) (length (lseq (D - 1)))) as [Hgp|Hgp].
+      + destruct Hres as [Hp2 Hr2].
+        destruct (nth_error (lseq (D - 1)) (S gp)) as [pit2|] eqn:E2; [|apply nth_error_None in E2; lia].
+        subst r2.
+        assert (Hok2 : item_ok pit2).
+        { pose proof (Hitems_all (D - 1)%nat ltac:(lia)) as F. rewrite Forall_forall in F. apply F. eapply nth_error_In. exact E2. }
+        destruct pit2 as [k2 ob2]. unfold load_data.
+        pose proof (off_of_item (k2, ob2) Hok2) as Ho2. cbn [snd] in Ho2. rewrite Ho2. cbn [bind].
+        destruct (bstore (coff (k2, ob2))) as [[[b2 es2] ridx2]|] eqn:Eb2; [|destruct Hok2 as [_ Hx]; congruence].
+        destruct (Hld _ _ _ _ Eb2) as (Hl2 & W2 & Hne2).
+        rewrite (Hl2 n2). cbn [bind bc_move]. unfold bc_new. rewrite (bc_first_spec b2 es2 ridx2 W2 None). cbn [bind].
+        eexists _, _. split; [reflexivity|]. cbn [cs_loads]. split; [lia|].
+        assert (Hk2 : kids (k2, ob2) = es2) by (unfold kids; rewrite Eb2; reflexivity).
+        pose proof (gstart_bound _ _ _ E2) as Hm2. rewrite Hk2 in Hm2.
+        assert (Hl0 : (0 < length es2)%nat) by (destruct es2; [congruence|cbn [length]; lia]).
+        rewrite HlD. destruct (Nat.ltb_spec (S i) (length (flat_map kids (lseq (D - 1))))); [|lia].
+        split.
+        * exists (rev stk), (mk_bcur b2 (Some (start es2 0))), 0. cbn [cs_inner cs_data].
+          split; [reflexivity|]. split; [rewrite rev_length; exact Hlen'|]. split; [exact Hcoh'|]. split; [reflexivity|].
+          rewrite rev_involutive. rewrite HD at 1. rewrite Hg1.
+          replace (gstart (lseq (D - 1)) (S gp)) with (gstart (lseq (D - 1)) (S gp) + 0)%nat by lia.
+          eapply pos_step; [exact Hp2 | exact E2 | exact Hok2 |]. exists b2, es2, ridx2. auto.
+        * rewrite Hg1. replace (gstart (lseq (D - 1)) (S gp)) with (gstart (lseq (D - 1)) (S gp) + 0)%nat by lia.
+          rewrite (nth_flat _ _ _ _ E2) by (rewrite Hk2; lia). rewrite Hk2. reflexivity.
+      + destruct Hres as [Hr2 _]. subst r2.
+        eexists _, _. split; [reflexivity|]. cbn [cs_loads]. split; [lia|].
+        assert (length (lseq (D - 1)) = S gp) by (pose proof (positioned_lt _ _ _ Hup); lia).
+        assert (S i = length (flat_map kids (lseq (D - 1)))) by (rewrite Hg1, <- gstart_all; congruence).
+        rewrite HlD. destruct (Nat.ltb_spec (S i) (length (flat_map kids (lseq (D - 1))))); [lia|].
+        split; [reflexivity|]. unfold Coh. cbn [cs_inner]. split; [rewrite rev_length; exact Hlen'|exact Hcoh'].
+  Qed.
+
+  Theorem c_prev_spec st i : Pos st i ->
+    exists st' r, c_next_prev ld root levels MPrev st = Done (st', r) /\
+      cs_loads st <= cs_loads st' <= cs_loads st + N.of_nat (S D) /\
+      if Nat.ltb 0 i
+      then Pos st' (i - 1) /\ r = nth_error (lseq D) (i - 1)
+      else r = None /\ Coh st'.
+  Proof.
+    intros (lv & dc & o & Ei & Hlen & Hcoh & Ed & Hp).
+    assert (HD : D = S (D - 1)) by (unfold D; lia).
+    rewrite HD in Hp. apply positioned_inv in Hp. destruct Hp as (gp & pit & j & Hup & Hn & Hok & Hc & Hi).
+    destruct Hc as (b & es & ridx & E & H1 & H2 & H3).
+    assert (Hcat : cursor_at dc (coff pit) j) by (exists b, es, ridx; auto).
+    assert (Hk : kids pit = es) by (unfold kids; rewrite E; reflexivity).
+    destruct (Hld _ _ _ _ E) as (_ & W & _).
+    unfold c_next_prev. rewrite Ed. rewrite (move_prev_at dc (coff pit) j b es ridx E Hcat).
+    assert (HlD : lseq D = flat_map kids (lseq (D - 1))) by (rewrite HD at 1; reflexivity).
+    destruct (Nat.eqb_spec j 0) as [Hj0|Hj0]; cbn [bind].
+    - (* first entry of the data block: ask the index *)
+      unfold idx_rec. rewrite Ei. cbn [bind].
+      destruct (rec_prev_spec (rev lv) (D - 1) gp Hup ltac:(intros k Hk'; apply Hitems_all; lia) (cs_loads st))
+        as (stk & r2 & n2 & Er & Hn2 & Hres).
+      rewrite Er. cbn [bind].
+      destruct (coherent_rev_stack lv stk _ _ _ MPrev Hcoh Er Hlen) as [Hcoh' Hlen'].
+      assert (Hg0 : i = gstart (lseq (D - 1)) gp) by lia.
+      destruct (Nat.ltb_spec 0 gp) as [Hgp|Hgp].
+      + destruct Hres as [Hp2 Hr2].
+        destruct (nth_error (lseq (D - 1)) (gp - 1)) as [pit2|] eqn:E2.
+        2:{ apply nth_error_None in E2. pose proof (positioned_lt _ _ _ Hup). lia. }
+        subst r2.
+        assert (Hok2 : item_ok pit2).
+        { pose proof (Hitems_all (D - 1)%nat ltac:(lia)) as F. rewrite Forall_forall in F. apply F. eapply nth_error_In. exact E2. }
+        destruct pit2 as [k2 ob2]. unfold load_data.
+        pose proof (off_of_item (k2, ob2) Hok2) as Ho2. cbn [snd] in Ho2. rewrite Ho2. cbn [bind].
+        destruct (bstore (coff (k2, ob2))) as [[[b2 es2] ridx2]|] eqn:Eb2; [|destruct Hok2 as [_ Hx]; congruence].
+        destruct (Hld _ _ _ _ Eb2) as (Hl2 & W2 & Hne2).
+        assert (Hl0 : (0 < length es2)%nat) by (destruct es2; [congruence|cbn [length]; lia]).
+        rewrite (Hl2 n2). cbn [bind bc_move]. unfold bc_new. rewrite (bc_last_spec b2 es2 ridx2 W2 None Hl0). cbn [bind].
+        eexists _, _. split; [reflexivity|]. cbn [cs_loads]. split; [lia|].
+        assert (Hk2 : kids (k2, ob2) = es2) by (unfold kids; rewrite Eb2; reflexivity).
+        pose proof (gstart_S (lseq (D - 1)) (gp - 1) (k2, ob2) E2) as HS. replace (S (gp - 1)) with gp in HS by lia. rewrite Hk2 in HS.
+        destruct (Nat.ltb_spec 0 i); [|lia].
+        assert (Hgm : (i - 1 = gstart (lseq (D - 1)) (gp - 1) + (length es2 - 1))%nat) by lia.
+        split.
+        * exists (rev stk), (mk_bcur b2 (Some (start es2 (length es2 - 1)))), 0. cbn [cs_inner cs_data].
+          split; [reflexivity|]. split; [rewrite rev_length; exact Hlen'|]. split; [exact Hcoh'|]. split; [reflexivity|].
+          rewrite rev_involutive. rewrite HD at 1. rewrite Hgm.
+          eapply pos_step; [exact Hp2 | exact E2 | exact Hok2 |]. exists b2, es2, ridx2. repeat split; auto. lia.
+        * rewrite HlD, Hgm. rewrite (nth_flat _ _ _ _ E2) by (rewrite Hk2; lia). rewrite Hk2. reflexivity.
+      + destruct Hres as [Hr2 _]. subst r2.
+        eexists _, _. split; [reflexivity|]. cbn [cs_loads]. split; [lia|].
+        assert (gp = 0%nat) by lia. subst gp. rewrite gstart_0 in Hg0.
+        destruct (Nat.ltb_spec 0 i); [lia|].
+        split; [reflexivity|]. unfold Coh. cbn [cs_inner]. split; [rewrite rev_length; exact Hlen'|exact Hcoh'].
+    - (* inside the data block *)
+      destruct (nth_error es (j - 1)) as [kv|] eqn:En; [|apply nth_error_None in En; lia].
+      eexists _, _. split; [reflexivity|]. cbn [cs_loads]. split; [lia|].
+      destruct (Nat.ltb_spec 0 i); [|lia].
+      assert (Hgm : (i - 1 = gstart (lseq (D - 1)) gp + (j - 1))%nat) by lia.
+      split.
+      + exists lv, (mk_bcur b (Some (start es (j - 1)))), o. cbn [cs_inner cs_data]. rewrite Ei.
+        split; [reflexivity|]. split; [exact Hlen|]. split; [exact Hcoh|]. split; [reflexivity|].
+        rewrite HD at 1. rewrite Hgm. eapply pos_step; [exact Hup | exact Hn | exact Hok |]. exists b, es, ridx. repeat split; auto. lia.
+      + rewrite HlD, Hgm. rewrite (nth_flat _ _ _ _ Hn) by (rewrite Hk; lia). rewrite Hk. first [reflexivity | exact En | (symmetry; exact En)].
+  Qed.
 End Refine.
